@@ -2,3 +2,4 @@
 import AJ.Props.C10
 import AJ.Props.C10Class
 import AJ.Props.C01Doc
+import AJ.Props.C10Gen
